@@ -395,6 +395,28 @@ func H_C03_body_free() {
 	}
 }
 
+// H_C03_nexus_symbols: a Nexus file that declares its own gap / missing / match symbol and uses it in the rows: success never contradicts the declared NTAX / NCHAR, whatever the byte length of the symbol.
+// bounds: 2 rows of 3 residues with the symbol once per row; the symbol one of '-', '~', '%', a lone byte 0x80 (read as U+FFFD), the 2-byte character U+00A7 and the 3-byte character U+20AC (enumerated); NCHAR a symbolic digit 1..9; key in {gap, missing, matchchar}
+// outside: other symbols (symbolic bytes >= 0x80 reach rune decoding the engine does not execute symbolically), longer rows
+//verif: maxsteps=3000000
+func H_C03_nexus_symbols() {
+	key := []string{"gap", "missing", "matchchar"}[nondetRange(0, 2)]
+	sym := []string{"-", "~", "%", "\x80", "\xc2\xa7", "\xe2\x82\xac"}[nondetRange(0, 5)]
+	d := nondetByte()
+	assume(d >= '1' && d <= '9')
+	x := sym
+	in := "#NEXUS\nbegin data;\ndimensions ntax=2 nchar=" + string([]byte{d}) + ";\nformat datatype=dna " + key + "=" + x + ";\nmatrix\na AC" + x + "\nb A" + x + "G\n;\nend;\n"
+	verifAllowExit()
+	al, err := nexus.NewParser(strings.NewReader(in)).Parse()
+	verifReach("parsed")
+	if err == nil {
+		verifReach("accepted")
+		vfWellFormed(al)
+		verifAssert(al.NbSequences() == 2, "number of sequences = NTAX declared in the file")
+		verifAssert(al.Length() == int(d-'0'), "length = NCHAR declared in the file")
+	}
+}
+
 // H_C03_fasta_free: every ASCII input of up to 4 bytes through the FASTA parsers.
 // bounds: length 0..4 (quick), every byte 0..127
 // outside: longer inputs
